@@ -419,6 +419,48 @@ def oracle_surface(ck, rng):
         ck.violation(what=what, inp=inp, key={"site": "surface-" + site}, oracle="simulator_surface")
 
 
+def oracle_low_face(ck, rng):
+    """molecules whose box sticks out of the low faces of the volume (negative, non-integer pixel coordinates of the box start): the volume is
+    the corresponding crop of the same scene simulated in a larger volume with every molecule moved k voxels inwards (integer translation
+    covariance; k voxels of margin make every coordinate positive there)"""
+    from scipy.spatial.transform import Rotation
+    from acryo import TomogramSimulator, Molecules
+    n_it = 8 if ck.tier == "quick" else 60
+    for it in range(n_it):
+        side = int(rng.integers(4, 8))
+        order = int(rng.choice([0, 1]))
+        scale = float(rng.choice([1.0, 0.5, 2.0]))
+        # (the template is zero on its outermost voxels and unrotated: a sub-voxel resampling inside its own box then loses nothing at the
+        # box faces, whichever way the position is split into an integer and a fractional part)
+        tmpl = np.zeros((side,) * 3, dtype=np.float32)
+        tmpl[1:-1, 1:-1, 1:-1] = rng.integers(1, 9, size=(side - 2,) * 3)
+        N, k = (9, 10, 8), 6
+        # centres near (and beyond) the low faces, on quarter voxels: box starts at negative non-integer coordinates
+        pos_px = rng.integers(-8, 9, size=(3, 3)) / 4.0
+        pos_px[0] = np.array([(side - 1) / 2 - 1.0 - (side % 2) * 0.5, 2.25, -0.75])[rng.permutation(3)]
+        rot = Rotation.identity(3)
+        try:
+            a = TomogramSimulator(order=order, scale=scale)
+            a.add_molecules(Molecules(pos_px * scale, rot), tmpl)
+            got = np.asarray(a.simulate(N))
+            b = TomogramSimulator(order=order, scale=scale)
+            b.add_molecules(Molecules((pos_px + k) * scale, rot), tmpl)
+            want = np.asarray(b.simulate(tuple(n + k for n in N)))[k:, k:, k:]
+            bad = None
+            if got.shape != want.shape:
+                bad = f"shape {got.shape}"
+            elif not np.allclose(got, want, atol=1e-3 * float(np.abs(want).max() + 1)):
+                bad = (f"differs from the crop of the scene simulated {k} voxels further inside in {int((np.abs(got - want) > 1e-3 * (np.abs(want).max() + 1)).sum())} voxels "
+                       f"(max {float(np.abs(got - want).max()):.3g})")
+        except Exception as e:  # noqa
+            bad = f"raised {type(e).__name__}: {e}"
+        ck.oracle_count("low_face_translation", 1, 1)
+        if bad:
+            ck.violation(what=f"simulate({N}) with molecules at pixel positions {pos_px.tolist()} (template side {side}, order {order}, scale {scale}): {bad}",
+                         inp={"N": list(N), "side": side, "order": order, "scale": scale, "pos_px": pos_px.tolist(), "seed": ck.seed, "iteration": it},
+                         key={"site": "low-face", "order": order}, oracle="low_face_translation")
+
+
 def run(ck: common.Check):
     ck.design_ref = "DESIGN.md §6 C14"
     ck.trusted_base = TB
@@ -432,6 +474,7 @@ def run(ck: common.Check):
     corr_sim(ck, rng)
     oracle_loadback(ck, rng)
     oracle_surface(ck, np.random.default_rng(ck.seed + 14141))
+    oracle_low_face(ck, np.random.default_rng(ck.seed + 14142))
 
 
 def replay(data):
